@@ -19,7 +19,36 @@ def run(ctx):
         ],
         leancheck=MODULE,
     )
+    # the same shipped parser when the code generator is built with its optional feature `grammar-extras` (cargo unifies features:
+    # anyone who enables it for a grammar of their own gets pest_grammars' parsers generated that way): same strings, same oracle,
+    # same model
+    ok, out, bindir, _ = cargo_build("derive_extras", [DRV])
+    stats = {}
+    if not ok:
+        ctx.violation({"obligation": "harness does not build against /repo (features derive_extras)", "log": out[-2000:]}, no_input=True)
+    else:
+        c = correspond("gen-derive-extras", os.path.join(bindir, DRV), ["gen", ctx.tier, str(ctx.seed)], MODE, os.path.join(ctx.rundir, "gen-derive-extras"))
+        if c.error:
+            ctx.violation({"correspondence": c.name, "error": c.error}, no_input=True)
+        else:
+            stats = {"lines": c.n, "oracle_failures": len(c.oracle_fail), "mismatches": len(c.mismatch)}
+            if c.oracle_fail:
+                i, op, imp, v = min(c.oracle_fail, key=lambda t: (len(t[1]), t[1]))
+                ctx.violation({"kind": "pest_grammars' JsonParser, generated with pest_generator's feature grammar-extras, accepts a string that is not RFC 8259 JSON, or rejects one that is",
+                               "features": "derive_extras", "case": op, "impl": imp[:600], "oracle": v[:600], "failing_cases_in_run": len(c.oracle_fail)})
+            elif c.mismatch:
+                i, op, imp, mod = min(c.mismatch, key=lambda t: (len(t[1]), t[1]))
+                ctx.violation({"kind": "correspondence `J` (JsonParser generated with grammar-extras vs the RFC transcription / reference denotation of json.pest) no longer checks",
+                               "features": "derive_extras", "case": op, "impl": imp[:600], "model": mod[:600], "mismatches_in_run": len(c.mismatch)})
+    ev_path = os.path.join(EVIDENCE, f"{ctx.prop}.json")
+    ev = json.load(open(ev_path))
+    ev["coverage"]["distribution"] = dict(ev["coverage"].get("distribution", {}), generator_with_grammar_extras=stats)
+    ev["coverage"]["traces_validated_against_impl"] = ev["coverage"].get("traces_validated_against_impl", 0) + stats.get("lines", 0)
+    ev["violations"] = len(ctx.violations)
+    ev["wall_s"] = round(time.time() - ctx.t0, 2)
+    json.dump(ev, open(ev_path, "w"), indent=1)
 
 
 def replay(ctx, path):
-    return replay_generic(ctx, path, DRV, MODE)
+    r = json.load(open(path))
+    return replay_generic(ctx, path, DRV, MODE, featureset=("derive_extras" if r.get("features") == "derive_extras" else "default"))
